@@ -73,6 +73,15 @@ func TestC10(t *testing.T) {
 			}
 			res, srv := run(mut, replay)
 			applied = srv.Applied || mut == "untrusted-fingerprint"
+			if res.err != nil && (strings.HasPrefix(mut, "prime-") || strings.HasPrefix(mut, "g-")) {
+				// an adversary may present the same unsafe parameters again (e.g. after the
+				// client reconnects): the second attempt in the same process must fail too
+				res2, srv2 := run(mut, replay)
+				if res2.err == nil {
+					t.Fatalf("C10 violated: exchange completed against adversary %q on the SECOND presentation of the same parameters (first attempt was refused): client key %x..", mut, res2.res.AuthKey.Value[:8])
+				}
+				_ = srv2
+			}
 			switch {
 			case mut == "honest":
 				if res.err != nil {
